@@ -8,7 +8,8 @@ from vlib import *
 def run_cmd(cmd, job, timeout=900):
     p = subprocess.run([hist.STFSDRV, cmd], input=json.dumps(job), stdout=subprocess.PIPE, stderr=subprocess.PIPE, text=True,
                        timeout=timeout, env=dict(ENV, VERIF_SCRATCH=hist.scratch_dir()))
-    return [json.loads(l) for l in p.stdout.splitlines() if l.startswith("{")], p.returncode, p.stderr[-800:]
+    e = p.stderr
+    return [json.loads(l) for l in p.stdout.splitlines() if l.startswith("{")], p.returncode, (e[:1200] + "\n...\n" + e[-800:]) if len(e) > 2200 else e
 
 
 def keys_stream(ctx):
@@ -79,6 +80,12 @@ def forge_stream(ctx):
             with ThreadPoolExecutor(max_workers=8) as ex:
                 res2 = list(ex.map(lambda j: run_cmd("forge", j, timeout=6000), extra))
             data += [dict(job=j, out=o, rc=rc, err=e) for j, (o, rc, e) in zip(extra, res2)]
+    # a sweep process that died (memory pressure, a signal) while others were running is not a verdict: run that chunk again, alone;
+    # what fails then is reported, with the beginning of its error output
+    for d in data:
+        if d["rc"] != 0:
+            o, rc, e = run_cmd("forge", d["job"], timeout=6000)
+            d.update(out=o, rc=rc, err=e, retried=True)
     streams.cache_put(p, data)
     return data
 
